@@ -45,11 +45,13 @@ def signature(evline, side):
     except Exception:
         return "end-of-trace"
     if e.get("e") == "Parse":
+        if side == "hl" and e.get("ok"):
+            return "multipart-headerless-part-content-swallowed"
         return "parser:ok=%s" % str(e.get("ok")).lower()
     if side == "mal" and e.get("ct") == "url" and e.get("st") == 200:
         return "urlencoded-malformed-delivered-in-part"
     if side == "hl" and e.get("ct") == "mp" and e.get("st") == 200:
-        return "multipart-headerless-part-accepted"
+        return "multipart-headerless-part-content-swallowed"
     return "upload:%s:%s:st%s" % (e.get("ct"), e.get("flt"), e.get("st"))
 
 
@@ -60,8 +62,9 @@ def run(ctx):
         "named restrictions of the code (refusal is what the property permits): no preamble before the first delimiter, "
         "no epilogue after the close-delimiter, no transport padding after a boundary, the closing CRLF ends a read chunk",
         "a part whose header block has lines but no Content-Disposition is delivered under the empty name (leniency, everything is delivered)",
-        "a part with an EMPTY header block is malformed (multipart/form-data requires Content-Disposition); RFC 2046 would give it the content "
-        "that follows the blank line - the code does neither (reported separately, signature multipart-headerless-part-accepted)",
+        "a part with an EMPTY header block (delimiter CRLF CRLF) is legal and, like any part without Content-Disposition, delivered under the "
+        "empty name; its content must be exactly what follows the CRLF ending the empty block (RFC 2046) - content shortened by a "
+        "swallowed pseudo-header is reported as multipart-headerless-part-content-swallowed (such inputs are validated from a side trace)",
         "header lines are interpreted through the table logged by the encoder; a line with ':' the encoder did not produce makes the spec silent",
         "urlencoded: malformed = what request::parse_form_urlencoded itself rejects (piece without '=' or with empty name); "
         "a '%' not followed by two hex digits is outside the property (spec silent)",
@@ -89,7 +92,7 @@ def leg_d(ctx, q, W, X):
     ctx.design("Form/Multipart.tla", "Multipart_limits.cfg", workers=W, timeout=600, deadlock_off=True, extra=X,
                note="part-size limit 0..2 around the part sizes")
     for cfg, inv in (("Multipart_mut_restart0.cfg", "Progress"), ("Multipart_mut_dropprefix.cfg", "Progress"),
-                     ("Multipart_mut_limitge.cfg", "AllOrNothing")):
+                     ("Multipart_mut_limitge.cfg", "AllOrNothing"), ("Multipart_mut_swallow.cfg", "Progress")):
         ctx.design("Form/Multipart.tla", cfg, workers=W, timeout=600, deadlock_off=True, extra=X, expect_violation=inv, count=False,
                    note="self-test: seeded fault in the model must violate " + inv)
 
